@@ -3,7 +3,7 @@
 //! extracted model. Property oracles are evaluated on the implementation's own before/after snapshots.
 //!
 //! cases.txt: `<id> T=<content>:<digest hex>;.. HOST=<hex> A=<tree> B=<tree> OPS=<op>,..`
-//!   op = `WA:<phex>:<chex>` | `WB:..` | `DA:<phex>` | `DB:<phex>` | `R` | `F`
+//!   op = `WA:<phex>:<chex>` | `WB:..` | `MA:..` | `MB:..` (a write that takes the opposite side's exact mtime) | `DA:<phex>` | `DB:<phex>` | `R` | `F`
 //! impl.txt:  `<id> <state>|<state>|..`   state = `A=<tree>;B=<tree>;Z=<arch|none>;X=<OK|CONFLICTS|IOERR|->;P=<plan|->`
 use crate::hubctl::snapshot;
 use crate::util::*;
@@ -28,7 +28,7 @@ fn case_tree(t: &Tree) -> String {
 
 #[derive(Clone, Debug)]
 pub enum Op {
-    Write(bool, String, Vec<u8>), // true = side A
+    Write(bool, String, Vec<u8>, bool), // true = side A; last: the write takes the opposite side's exact mtime (cp -p / touch -r)
     Delete(bool, String),
     Run,
     Fault(u8),
@@ -133,13 +133,27 @@ pub struct HistResult {
 }
 
 fn write_file(root: &str, p: &str, c: &[u8], r: &mut Rng) {
+    write_file2(root, None, p, c, r, false)
+}
+
+/// `other`: the opposite root.  With `copy_other` the write takes the exact (nanosecond) mtime of the opposite side's file at
+/// the same path when there is one (what `cp -p`, `touch -r`, `rsync -t`, `tar x` do): outcomes must not depend on it.
+fn write_file2(root: &str, other: Option<&str>, p: &str, c: &[u8], r: &mut Rng, copy_other: bool) {
     let full = format!("{}/{}", root, p);
     std::fs::create_dir_all(std::path::Path::new(&full).parent().unwrap()).unwrap();
     std::fs::write(&full, c).unwrap();
     // mtimes are randomised independently of contents
     let secs = 1_000_000_000 + r.below(700_000_000);
     let f = std::fs::File::options().write(true).open(&full).unwrap();
-    let _ = f.set_modified(std::time::UNIX_EPOCH + std::time::Duration::from_secs(secs));
+    let mut t = std::time::UNIX_EPOCH + std::time::Duration::from_secs(secs);
+    if copy_other {
+        if let Some(o) = other {
+            if let Ok(m) = std::fs::metadata(format!("{}/{}", o, p)).and_then(|m| m.modified()) {
+                t = m;
+            }
+        }
+    }
+    let _ = f.set_modified(t);
 }
 
 pub fn run_history(id: usize, env: &Env, init_a: &Tree, init_b: &Tree, ops: &[Op], r: &mut Rng, swap_check: bool) -> HistResult {
@@ -171,10 +185,10 @@ pub fn run_history(id: usize, env: &Env, init_a: &Tree, init_b: &Tree, ops: &[Op
         let mut exit = "-".to_string();
         let mut plan = "-".to_string();
         match op {
-            Op::Write(side, p, c) => {
-                write_file(if *side { &env.a } else { &env.b }, p, c, r);
+            Op::Write(side, p, c, pm) => {
+                write_file2(if *side { &env.a } else { &env.b }, Some(if *side { &env.b } else { &env.a }), p, c, r, *pm);
                 contents.insert(c.clone());
-                op_strs.push(format!("W{}:{}:{}", if *side { "A" } else { "B" }, hex(p.as_bytes()), hex(c)));
+                op_strs.push(format!("{}{}:{}:{}", if *pm { "M" } else { "W" }, if *side { "A" } else { "B" }, hex(p.as_bytes()), hex(c)));
             }
             Op::Delete(side, p) => {
                 let _ = std::fs::remove_file(format!("{}/{}", if *side { &env.a } else { &env.b }, p));
@@ -287,7 +301,7 @@ pub fn run_history(id: usize, env: &Env, init_a: &Tree, init_b: &Tree, ops: &[Op
         for (p, c) in init_b { write_file(&env2.a, p, c, r); }
         for op in ops {
             match op {
-                Op::Write(side, p, c) => write_file(if *side { &env2.b } else { &env2.a }, p, c, r),
+                Op::Write(side, p, c, pm) => write_file2(if *side { &env2.b } else { &env2.a }, Some(if *side { &env2.a } else { &env2.b }), p, c, r, *pm),
                 Op::Delete(side, p) => { let _ = std::fs::remove_file(format!("{}/{}", if *side { &env2.b } else { &env2.a }, p)); }
                 Op::Run => { let _ = env2.bisync(&[], &env2.a, &env2.b, &[]); }
                 Op::Fault(_) => { if let Some(f) = env2.archive_main() { let _ = std::fs::remove_file(f); } }
@@ -414,8 +428,10 @@ pub fn parse_case(line: &str) -> (Tree, Tree, Vec<Op>) {
                     let f: Vec<&str> = o.split(':').collect();
                     let s = |x: &str| String::from_utf8_lossy(&unhex(x)).into_owned();
                     match f[0] {
-                        "WA" => ops.push(Op::Write(true, s(f[1]), unhex(f[2]))),
-                        "WB" => ops.push(Op::Write(false, s(f[1]), unhex(f[2]))),
+                        "WA" => ops.push(Op::Write(true, s(f[1]), unhex(f[2]), false)),
+                        "WB" => ops.push(Op::Write(false, s(f[1]), unhex(f[2]), false)),
+                        "MA" => ops.push(Op::Write(true, s(f[1]), unhex(f[2]), true)),
+                        "MB" => ops.push(Op::Write(false, s(f[1]), unhex(f[2]), true)),
                         "DA" => ops.push(Op::Delete(true, s(f[1]))),
                         "DB" => ops.push(Op::Delete(false, s(f[1]))),
                         "R" => ops.push(Op::Run),
@@ -448,13 +464,13 @@ fn gen_history(r: &mut Rng, pool: &[Vec<u8>], paths: &[&str]) -> (Tree, Tree, Ve
             class = "directed:delete-both-recreate";
             let p = paths[0].to_string();
             let c = r.pick(pool).clone();
-            ops = vec![Op::Write(true, p.clone(), c.clone()), Op::Run, Op::Delete(true, p.clone()), Op::Delete(false, p.clone()), Op::Run, Op::Write(r.chance(1, 2), p.clone(), c), Op::Run, Op::Run];
+            ops = vec![Op::Write(true, p.clone(), c.clone(), false), Op::Run, Op::Delete(true, p.clone()), Op::Delete(false, p.clone()), Op::Run, Op::Write(r.chance(1, 2), p.clone(), c, false), Op::Run, Op::Run];
         }
         1 => {
             class = "directed:repeated-conflict";
             let p = paths[1].to_string();
             let (c1, c2) = (pool[1].clone(), pool[2].clone());
-            ops = vec![Op::Write(true, p.clone(), c1.clone()), Op::Write(false, p.clone(), c2.clone()), Op::Run, Op::Write(true, p.clone(), c1.clone()), Op::Write(false, p.clone(), c2.clone()), Op::Run, Op::Run];
+            ops = vec![Op::Write(true, p.clone(), c1.clone(), false), Op::Write(false, p.clone(), c2.clone(), false), Op::Run, Op::Write(true, p.clone(), c1.clone(), false), Op::Write(false, p.clone(), c2.clone(), false), Op::Run, Op::Run];
         }
         3 => {
             // the conflict copy produced by an earlier run is edited, then the same conflict (same losing content) repeats
@@ -467,16 +483,26 @@ fn gen_history(r: &mut Rng, pool: &[Vec<u8>], paths: &[&str]) -> (Tree, Tree, Ve
             let q = format!("{}.conflict-vphost-{}", p, &hex(&h32(&lo))[..12]);
             a.clear();
             b.clear();
-            ops = vec![Op::Write(true, p.clone(), lo.clone()), Op::Write(false, p.clone(), mid.clone()), Op::Run,
-                       Op::Write(r.chance(1, 2), q, b"edited by the user".to_vec()),
-                       Op::Write(true, p.clone(), lo.clone()), Op::Write(false, p.clone(), hi.clone()), Op::Run, Op::Run];
+            ops = vec![Op::Write(true, p.clone(), lo.clone(), false), Op::Write(false, p.clone(), mid.clone(), false), Op::Run,
+                       Op::Write(r.chance(1, 2), q, b"edited by the user".to_vec(), false),
+                       Op::Write(true, p.clone(), lo.clone(), false), Op::Write(false, p.clone(), hi.clone(), false), Op::Run, Op::Run];
+        }
+        4 => {
+            // one side is edited to other bytes of the same length and carries the opposite side's exact mtime
+            class = "directed:same-size-edit-with-peer-mtime";
+            let p = paths[2].to_string();
+            let side = r.chance(1, 2);
+            a.remove(&p);
+            b.remove(&p);
+            ops = vec![Op::Write(true, p.clone(), pool[1].clone(), false), Op::Run, Op::Write(side, p.clone(), pool[2].clone(), true), Op::Run, Op::Run,
+                       Op::Write(!side, p.clone(), pool[1].clone(), true), Op::Run, Op::Run];
         }
         2 => {
             class = "directed:fault-first";
             ops.push(Op::Run);
             for _ in 0..3 {
                 let p = r.pick(paths).to_string();
-                if r.chance(1, 2) { ops.push(Op::Write(r.chance(1, 2), p, r.pick(pool).clone())); } else { ops.push(Op::Delete(r.chance(1, 2), p)); }
+                if r.chance(1, 2) { ops.push(Op::Write(r.chance(1, 2), p, r.pick(pool).clone(), false)); } else { ops.push(Op::Delete(r.chance(1, 2), p)); }
             }
             ops.push(Op::Fault(r.below(8) as u8));
             ops.push(Op::Run);
@@ -488,7 +514,7 @@ fn gen_history(r: &mut Rng, pool: &[Vec<u8>], paths: &[&str]) -> (Tree, Tree, Ve
             for _ in 0..n {
                 match r.below(10) {
                     0..=3 => ops.push(Op::Run),
-                    4..=6 => ops.push(Op::Write(r.chance(1, 2), r.pick(paths).to_string(), r.pick(pool).clone())),
+                    4..=6 => { let pm = r.chance(1, 3); ops.push(Op::Write(r.chance(1, 2), r.pick(paths).to_string(), r.pick(pool).clone(), pm)) }
                     7 | 8 => ops.push(Op::Delete(r.chance(1, 2), r.pick(paths).to_string())),
                     _ => ops.push(Op::Fault(r.below(8) as u8)),
                 }
